@@ -5,6 +5,11 @@
 //! kind 802: (child) prints the buffers through `BufferWriter::stdout(ColorChoice::Never)` with the separator set
 //!           exactly as hiargs.rs::buffer_writer does; main then prints this kind's result line "77", which the
 //!           parent strips.
+//! kind 804: a directed schedule for "no file is reported twice or omitted": the parallel walker (2 threads) with
+//!           the window between an idle worker's successful steal and its re-activation stretched through the
+//!           `ignore::walk_verif` yield hook (a sleep at ACTIVATE) and a slow visitor standing in for a file search;
+//!           case = (root activate_ms visit_ms rounds) -> ((missing ...) (extra ...) duplicates) vs the serial walk.
+//!           (The general schedule space is C07's subject; this is one cheap deterministic member of it.)
 use crate::val::Val;
 use std::io::Write;
 
@@ -40,10 +45,59 @@ fn parent(v: &Val) -> Val {
     }
 }
 
+fn walk_race(v: &Val) -> Val {
+    use ignore::{walk_verif as verif, WalkBuilder, WalkState};
+    use std::collections::BTreeSet;
+    use std::sync::{Arc, Mutex};
+    use std::time::Duration;
+    let root = std::path::PathBuf::from(String::from_utf8_lossy(&v.fld(0).bytes()).to_string());
+    let activate_ms = v.fld(1).us() as u64;
+    let visit_ms = v.fld(2).us() as u64;
+    let rounds = v.fld(3).us();
+    let serial: BTreeSet<std::path::PathBuf> = WalkBuilder::new(&root)
+        .standard_filters(false)
+        .build()
+        .filter_map(|r| r.ok())
+        .map(|d| d.into_path())
+        .collect();
+    verif::set_yield(Some(Arc::new(move |_worker, kind| {
+        if kind == verif::ACTIVATE {
+            std::thread::sleep(Duration::from_millis(activate_ms));
+        }
+    })));
+    let mut missing: BTreeSet<std::path::PathBuf> = BTreeSet::new();
+    let mut extra: BTreeSet<std::path::PathBuf> = BTreeSet::new();
+    let mut dups = 0usize;
+    for _ in 0..rounds {
+        let seen: Arc<Mutex<Vec<std::path::PathBuf>>> = Arc::new(Mutex::new(vec![]));
+        WalkBuilder::new(&root).standard_filters(false).threads(2).build_parallel().run(|| {
+            let seen = seen.clone();
+            Box::new(move |r| {
+                if let Ok(dent) = r {
+                    std::thread::sleep(Duration::from_millis(visit_ms));
+                    seen.lock().unwrap().push(dent.into_path());
+                }
+                WalkState::Continue
+            })
+        });
+        let seen = seen.lock().unwrap();
+        let set: BTreeSet<std::path::PathBuf> = seen.iter().cloned().collect();
+        dups += seen.len() - set.len();
+        missing.extend(serial.difference(&set).cloned());
+        extra.extend(set.difference(&serial).cloned());
+    }
+    verif::set_yield(None);
+    let enc = |s: &BTreeSet<std::path::PathBuf>| {
+        Val::L(s.iter().map(|p| Val::of_bytes(p.to_string_lossy().as_bytes())).collect())
+    };
+    Val::L(vec![enc(&missing), enc(&extra), Val::of_us(dups), Val::of_us(serial.len())])
+}
+
 pub fn dispatch(kind: u32, v: &Val) -> Option<Val> {
     match kind {
         801 => Some(parent(v)),
         802 => Some(child(v)),
+        804 => Some(walk_race(v)),
         _ => None,
     }
 }
